@@ -142,6 +142,17 @@ def cases(seed, tier):
                 "mode": "lowest", "neig": 1, "neig_none": False, "withM": True, "spec": "pos", "straddle": True, "dtype": "float64",
                 "opA": "dense_herm", "opM": "herm_mv", "kappaM": 2.0, "batch": [[2], []], "min_eps": None, "v_init": None,
                 "biggap": 0})
+    # directed: an operator with a decoupled coordinate and the identity start: one start column is an exact eigenvector (its residual
+    # is exactly zero from the first step) while the other requested pairs still have to converge
+    kd = 0
+    for n in ((8, 14) if quick else (6, 8, 14, 25)):
+        for pos in (0, 1):
+            for neig in (2, 3):
+                for mode in ("lowest", "uppermost"):
+                    for batch in ([], [2]):
+                        out.append({"group": "decoupled", "seed": sub_seed(seed, "c05d", kd), "n": n, "pos": pos, "neig": neig, "mode": mode,
+                                    "batch": batch, "opA": ["dense_herm", "herm_mv"][kd % 2]})
+                        kd += 1
     NS = 1500 if quick else 30000
     for i in range(NS):
         rng = random.Random(sub_seed(seed, "c05v", i))
@@ -748,8 +759,57 @@ def run_svd(desc, obs):
     obs.nontrivial = p >= 2 and (not dav or iters >= 2)
 
 
+def run_decoupled(desc, obs):
+    import scipy.linalg
+    from xitorch.linalg import symeig
+    n, pos, neig, mode, batch = desc["n"], desc["pos"], desc["neig"], desc["mode"], tuple(desc["batch"])
+    tg = torch.Generator().manual_seed(desc["seed"])
+    nb = 1
+    for b in batch:
+        nb *= b
+    mats = []
+    for _ in range(nb):
+        q, _r = torch.linalg.qr(torch.randn(n - 1, n - 1, dtype=torch.float64, generator=tg))
+        ev = 1.0 + 0.35 * torch.arange(n - 1, dtype=torch.float64) + 0.1 * torch.rand(n - 1, dtype=torch.float64, generator=tg)
+        R = (q * ev) @ q.T
+        R = 0.5 * (R + R.T)
+        lam0 = 0.6 if mode == "lowest" else float(ev.max()) + 0.7        # the decoupled eigenvalue lies on the requested side
+        A = torch.zeros(n, n, dtype=torch.float64)
+        idx = [i for i in range(n) if i != pos]
+        A[pos, pos] = lam0
+        A[torch.tensor(idx)[:, None], torch.tensor(idx)[None, :]] = R
+        mats.append(A)
+    A = torch.stack(mats).reshape(*batch, n, n) if batch else mats[0]
+    op = gen.leaf_operator(desc["opA"], A)
+    mech = "decoupled:davidson:%s:%s" % (mode, "batch" if batch else "nobatch")
+    try:
+        with WarnLog():
+            evals, evecs = symeig(op, neig=neig, mode=mode, method="davidson", v_init="eye")
+    except Exception as e:
+        obs.exc_violation(mech, e)
+        obs.nontrivial = True
+        return
+    flatA = A.reshape(-1, n, n)
+    fe = evals.reshape(-1, neig)
+    fv = evecs.reshape(-1, n, neig)
+    for b in range(flatA.shape[0]):
+        ref = torch.tensor(scipy.linalg.eigh(flatA[b].numpy(), eigvals_only=True))
+        want = ref[:neig] if mode == "lowest" else ref[-neig:]
+        err = float((fe[b] - want).abs().max())
+        obs.check(err <= 1e-4, "evals:" + mech, "returned eigenvalues %s, the %d %s of the LAPACK reference are %s" % (fe[b].tolist(), neig, mode, want.tolist()))
+        res = float((flatA[b] @ fv[b] - fv[b] * fe[b]).norm(dim=0).max())
+        obs.check(res <= 1e-4, "resid:" + mech, "|A x - e x| = %.3e" % res)
+        orth = float((fv[b].T @ fv[b] - torch.eye(neig, dtype=torch.float64)).abs().max())
+        obs.check(orth <= 1e-7, "orth:" + mech, "|X^T X - I| = %.3e (a zero or duplicated eigenvector)" % orth)
+    obs.count("decoupled_cases")
+    obs.nontrivial = True
+
+
 def run_case(desc):
     obs = Obs(desc)
+    if desc["group"] == "decoupled":
+        run_decoupled(desc, obs)
+        return obs.result()
     if desc["group"] == "symeig":
         run_symeig(desc, obs)
     elif desc["group"] == "svd":
